@@ -12,7 +12,6 @@ static void state(const char *op, int res) {
 }
 int cmd_c03e(int argc, char **argv) {
   if (argc < 1) return 2;
-  if (!freopen("/dev/null", "w", stderr)) return 2;
   FILE *f = fopen(argv[0], "r"); if (!f) return 2;
   char *buf = NULL; size_t cap = 0;
   while (getline(&buf, &cap, f) > 0) {
